@@ -1,6 +1,7 @@
 SPECIFICATION Spec
 CONSTANTS
  NSamples = 120
+ NReuse = 20
  PairMs = {0, 255, 1}
  DeltaDists = {1, 2, 3, 4, 5, 16, 17, 128, 254, 255, 256}
  DeltaLens = {0, 1, 2, 17, 255, 256, 257, 300, 511, 512, 513, 1000}
